@@ -136,8 +136,17 @@ class C05(Prop):
         F0 = case["inputs"][0]["fmt"].upper()
         r4 = T.af_invoke(["-i", F0, "-f", OUT, "--qc-overlaps", "--name", "given"], stdin=texts[0], in_fmt=F0, out_fmt=OUT,
                          name="given", qc=True)
+        # options against extensions: --format wins over the extension of -o, --input-format over the input's
+        other_fmt = "TPF" if case["out"] == "agp" else "AGP"
+        out2 = d / f"out2.{case['out']}"
+        if out2.exists():
+            out2.unlink()
+        r5 = T.af_invoke(["-f", other_fmt, "-o", str(out2)], files, out_name=out2.name, out_fmt=other_fmt, out_path=out2)
+        wrong = "TPF" if case["inputs"][0]["fmt"] == "agp" else "AGP"
+        r6 = T.af_invoke(["-i", wrong, "-f", OUT], files[:1], in_fmt=wrong, out_fmt=OUT)
         return {"exit": [r1["exit"], r2["exit"], r3["exit"]], "file": r1["out"] if wrote else None,
-                "stdout": r2["out"], "stdout with --qc-overlaps": r3["out"], "inputs": texts, "invocations": [r1, r2, r3, r4]}
+                "stdout": r2["out"], "stdout with --qc-overlaps": r3["out"], "inputs": texts,
+                "invocations": [r1, r2, r3, r4, r5, r6], "other_format": [other_fmt, r5["exit"], r5["out"]]}
 
     def run_impl(self, case):
         which = case["fmt"]
@@ -189,6 +198,11 @@ class C05(Prop):
                 a = inp["asm"] if inp["fmt"] == "agp" else drop_tags(inp["asm"])
                 want += T.fmt(a, case["out"])
                 nrows += sum(len(sc["rows"]) for sc in a["scaffolds"])
+            of = obs.get("other_format")
+            if of is not None:
+                want2 = "".join(T.fmt(inp["asm"] if inp["fmt"] == "agp" else drop_tags(inp["asm"]), of[0].lower()) for inp in case["inputs"])
+                if of[1] != 0 or of[2] != want2:
+                    return f"asm-format --format {of[0]} -o out2.{case['out']} did not write {of[0]} (the option must win over the extension)"
             for where in ("file", "stdout", "stdout with --qc-overlaps"):
                 got = obs[where]
                 if got is None:
